@@ -1,3 +1,454 @@
 import KoordVerif.Model.C20
+/-
+C20 — property theorems (DESIGN.md §4 C20) over the executable model `Model/C20.lean`.
+
+Reading of the statement.  A strategy is its flattened JSON form; "field" = a path.  A layer *sets*
+a field iff its JSON form carries the path (`get u p ≠ none`), except for the single non-pointer scalar
+`totalNetworkBandwidth` of the system strategy, which json.Marshal always prints: there a value of
+exactly 0 counts as "not set" (`setBy`).  JSON arrays are merged by encoding/json element by element
+and truncated to the more specific layer's length: the array length is itself a field, and `cut u p`
+says that `p` lies in an element the more specific layer's array no longer has.
+-/
 namespace KoordVerif.C20
+
+/-! ### helper lemmas about `get`, `overlay`, `setLeaf`, `emitTnb` -/
+
+theorem get_append (a b : Flat) (p : Path) : get (a ++ b) p = (get a p).or (get b p) := by
+  simp [get, List.find?_append, Option.map_or]
+
+theorem has_eq (t : Flat) (p : Path) : has t p = (get t p).isSome := by
+  induction t with
+  | nil => simp [has, get]
+  | cons e t ih =>
+    simp only [has, get, List.any_cons, List.find?_cons] at *
+    by_cases h : (e.1 == p) = true
+    · simp [h]
+    · simp only [Bool.not_eq_true] at h
+      simp [h, ih]
+
+theorem get_filter (o : Flat) (q : Path → Bool) (p : Path) :
+    get (o.filter (fun e => q e.1)) p = if q p then get o p else none := by
+  induction o with
+  | nil => simp [get]
+  | cons e o ih =>
+    by_cases hq : q e.1 = true
+    · rw [List.filter_cons_of_pos (by simpa using hq)]
+      by_cases he : (e.1 == p) = true
+      · have : e.1 = p := by simpa using he
+        subst this
+        simp [get, hq]
+      · have hne : (e.1 == p) = false := by simpa using he
+        have h1 : get (e :: List.filter (fun e => q e.1) o) p = get (List.filter (fun e => q e.1) o) p := by
+          simp [get, List.find?_cons, hne]
+        have h2 : get (e :: o) p = get o p := by simp [get, List.find?_cons, hne]
+        rw [h1, h2, ih]
+    · rw [List.filter_cons_of_neg (by simpa using hq)]
+      rw [ih]
+      by_cases he : (e.1 == p) = true
+      · have : e.1 = p := by simpa using he
+        subst this
+        simp [hq]
+      · have hne : (e.1 == p) = false := by simpa using he
+        have h2 : get (e :: o) p = get o p := by simp [get, List.find?_cons, hne]
+        rw [h2]
+
+/-- MergeCfg, field by field: the value `new` emits, else `old`'s unless hidden by a shorter array of `new`. -/
+theorem get_overlay (o n : Flat) (p : Path) :
+    get (overlay o n) p = (get n p).or (if cut n p then none else get o p) := by
+  unfold overlay
+  rw [get_append, get_filter o (fun q => !(has n q) && !(cut n q)) p, has_eq]
+  cases h : get n p with
+  | some v => simp
+  | none => cases hc : cut n p <;> simp
+
+theorem get_setLeaf (t : Flat) (q : Path) (v : Option Int) (p : Path) :
+    get (setLeaf t q v) p = if p = q then v else get t p := by
+  unfold setLeaf
+  rw [get_append, get_filter t (fun x => !(x == q)) p]
+  by_cases h : p = q
+  · subst h
+    cases v <;> simp [get]
+  · have hb : (p == q) = false := by simpa using h
+    have hq : (q == p) = false := by simpa using (fun e : q = p => h e.symm)
+    cases v <;> simp [get, h, hb, hq]
+
+theorem get_emitTnb (s : Flat) (p : Path) :
+    get (emitTnb s) p = if p = tnbPath then some ((get s tnbPath).getD 0) else get s p := by
+  unfold emitTnb
+  by_cases hh : has s tnbPath = true
+  · rw [if_pos hh]
+    rw [has_eq] at hh
+    by_cases h : p = tnbPath
+    · subst h
+      cases hg : get s tnbPath with
+      | none => simp [hg] at hh
+      | some v => simp
+    · simp [h]
+  · rw [if_neg hh]
+    rw [has_eq] at hh
+    have hn : get s tnbPath = none := by
+      cases hg : get s tnbPath with
+      | none => rfl
+      | some v => simp [hg] at hh
+    rw [get_append]
+    by_cases h : p = tnbPath
+    · subst h
+      simp [hn, get]
+    · have hb : (tnbPath == p) = false := by simpa using (fun e : tnbPath = p => h e.symm)
+      cases hg : get s p <;> simp [get, h, hb]
+
+theorem cutBy_tnb (len : Int) (p : Path) : cutBy tnbPath len p = false := by
+  unfold tnbPath
+  cases p with
+  | nil => simp [cutBy]
+  | cons b p => cases p <;> simp [cutBy]
+
+theorem cut_emitTnb (s : Flat) (p : Path) : cut (emitTnb s) p = cut s p := by
+  unfold emitTnb
+  by_cases hh : has s tnbPath = true
+  · simp [hh]
+  · simp [hh, cut, List.any_append, cutBy_tnb]
+
+/-! ### the statement's vocabulary -/
+
+/-- the value a layer SETS at a field: what its JSON form carries; for totalNetworkBandwidth of the
+    system strategy (non-pointer, always printed) the value 0 is "not set". -/
+def setBy (sys : Bool) (u : Flat) (p : Path) : Option Int :=
+  if sys && p == tnbPath && get u p == some 0 then none else get u p
+
+/-- one layer `u` (if present) on top of the less specific value `lower`. -/
+def lay (sys : Bool) (u : Option Flat) (lower : Path → Option Int) (p : Path) : Option Int :=
+  match u with
+  | none => lower p
+  | some u => (setBy sys u p).or (if cut u p then none else lower p)
+
+/-- side conditions of the system section: the built-in default bandwidth is 0 and a strategy's root is
+    a JSON object (so the root key `totalNetworkBandwidth` is never inside a truncated array). -/
+def RootObj (sys : Bool) (u : Option Flat) : Prop := sys = true → ∀ x, u = some x → cut x tnbPath = false
+
+theorem get_mergeCluster (sys : Bool) (dflt : Flat) (c : Option Flat) (p : Path)
+    (hd : sys = true → get dflt tnbPath = some 0) (hc : RootObj sys c) :
+    get (mergeCluster sys dflt c) p = lay sys c (get dflt) p := by
+  cases c with
+  | none => simp [mergeCluster, lay]
+  | some c =>
+    simp only [mergeCluster, lay, get_overlay]
+    cases sys with
+    | false => simp [emit, setBy]
+    | true =>
+      have hd := hd rfl
+      have hc := hc rfl c rfl
+      simp only [emit, if_true, get_emitTnb, cut_emitTnb, setBy, Bool.true_and]
+      by_cases h : p = tnbPath
+      · subst h
+        cases hg : get c tnbPath with
+        | none => simp [hc, hd]
+        | some v =>
+          by_cases hv : v = 0
+          · subst hv; simp [hc, hd]
+          · simp [hv]
+      · have hb : (p == tnbPath) = false := by simpa using h
+        simp [h, hb]
+
+theorem get_mergeNode (sys : Bool) (cl : Flat) (s : Option Flat) (p : Path) (hs : RootObj sys s) :
+    get (mergeNode sys cl s) p = lay sys s (get cl) p := by
+  cases s with
+  | none => simp [mergeNode, lay]
+  | some s =>
+    cases sys with
+    | false => simp [mergeNode, lay, emit, setBy, get_overlay]
+    | true =>
+      have hs := hs rfl s rfl
+      simp only [mergeNode, lay, emit, if_true, Bool.true_and, setBy, get_emitTnb]
+      by_cases h0 : (get s tnbPath).getD 0 = 0
+      · have hcond : (some ((get s tnbPath).getD 0) == some (0 : Int)) = true := by simp [h0]
+        simp only [if_true, hcond]
+        rw [get_setLeaf, get_overlay, cut_emitTnb, get_emitTnb]
+        by_cases h : p = tnbPath
+        · subst h
+          cases hg : get s tnbPath with
+          | none => simp [hs]
+          | some v =>
+            have : v = 0 := by simpa [hg] using h0
+            subst this
+            simp [hs]
+        · have hb : (p == tnbPath) = false := by simpa using h
+          simp [h, hb]
+      · have hcond : (some ((get s tnbPath).getD 0) == some (0 : Int)) = false := by simp [h0]
+        simp only [hcond, Bool.false_eq_true, if_false]
+        rw [get_overlay, cut_emitTnb, get_emitTnb]
+        by_cases h : p = tnbPath
+        · subst h
+          cases hg : get s tnbPath with
+          | none => simp [hg] at h0
+          | some v =>
+            have hv : v ≠ 0 := by simpa [hg] using h0
+            simp [hv]
+        · have hb : (p == tnbPath) = false := by simpa using h
+          simp [h, hb]
+
+/-- selection after a parsed section: the first entry whose selector matches, else the cluster strategy. -/
+theorem select_ok (sys : Bool) (dflt : Flat) (old : SecCfg) (c : Option Flat) (ns : List NodeEntry) (ls : Labels) :
+    selectNode ls (mergeSection sys dflt old (.ok c ns)) =
+      match ns.find? (fun e => e.sel.matches ls) with
+      | some e => mergeNode sys (mergeCluster sys dflt c) e.strat
+      | none => mergeCluster sys dflt c := by
+  simp only [selectNode, mergeSection, List.find?_map]
+  have : ((fun e : Sel × Flat => e.1.matches ls) ∘ fun e : NodeEntry => (e.sel, mergeNode sys (mergeCluster sys dflt c) e.strat))
+      = fun e : NodeEntry => e.sel.matches ls := by funext e; rfl
+  rw [this]
+  cases ns.find? (fun e => e.sel.matches ls) <;> rfl
+
+theorem find_first (pre post : List NodeEntry) (e : NodeEntry) (ls : Labels)
+    (hpre : ∀ x ∈ pre, x.sel.matches ls = false) (he : e.sel.matches ls = true) :
+    (pre ++ e :: post).find? (fun x => x.sel.matches ls) = some e := by
+  induction pre with
+  | nil => simp [List.find?_cons, he]
+  | cons x pre ih =>
+    have hx := hpre x (by simp)
+    simp only [List.cons_append, List.find?_cons, hx]
+    exact ih (fun y hy => hpre y (by simp [hy]))
+
+theorem find_none (ns : List NodeEntry) (ls : Labels) (h : ∀ x ∈ ns, x.sel.matches ls = false) :
+    ns.find? (fun x => x.sel.matches ls) = none := by
+  simp only [List.find?_eq_none]
+  intro x hx
+  simp [h x hx]
+
+/-! ### 1. field layering: first matching entry, else cluster, else default — for EVERY path -/
+
+/-- T1 `field_layering`.  After a ConfigMap whose section parses, for every node label set, every path:
+    the delivered value is the first matching entry's if it sets the field, else the cluster-wide value
+    if set, else the built-in default (a layer's shorter array hides the lower layers' extra elements). -/
+theorem field_layering (sys : Bool) (dflt : Flat) (old : SecCfg) (c : Option Flat)
+    (pre post : List NodeEntry) (e : NodeEntry) (ls : Labels) (p : Path)
+    (hpre : ∀ x ∈ pre, x.sel.matches ls = false) (he : e.sel.matches ls = true)
+    (hd : sys = true → get dflt tnbPath = some 0) (hc : RootObj sys c) (hs : RootObj sys e.strat) :
+    get (selectNode ls (mergeSection sys dflt old (.ok c (pre ++ e :: post)))) p
+      = lay sys e.strat (lay sys c (get dflt)) p := by
+  rw [select_ok, find_first pre post e ls hpre he]
+  simp only
+  rw [get_mergeNode sys _ e.strat p hs]
+  cases hst : e.strat with
+  | none => simp [lay, get_mergeCluster sys dflt c p hd hc]
+  | some s =>
+    simp only [lay]
+    rw [get_mergeCluster sys dflt c p hd hc]
+    rfl
+
+/-- T1 (no entry selects the node): cluster-wide value if set, else default. -/
+theorem field_layering_cluster (sys : Bool) (dflt : Flat) (old : SecCfg) (c : Option Flat)
+    (ns : List NodeEntry) (ls : Labels) (p : Path)
+    (hns : ∀ x ∈ ns, x.sel.matches ls = false)
+    (hd : sys = true → get dflt tnbPath = some 0) (hc : RootObj sys c) :
+    get (selectNode ls (mergeSection sys dflt old (.ok c ns))) p = lay sys c (get dflt) p := by
+  rw [select_ok, find_none ns ls hns]
+  exact get_mergeCluster sys dflt c p hd hc
+
+/-- T1, the literal form of DESIGN §4 for the three pointer-only sections when no JSON array is cut:
+    `eff.path = firstMatch.path <|> cluster.path <|> default.path`. -/
+theorem field_layering_plain (dflt : Flat) (old : SecCfg) (c s : Flat)
+    (pre post : List NodeEntry) (sel : Sel) (ls : Labels) (p : Path)
+    (hpre : ∀ x ∈ pre, x.sel.matches ls = false) (he : sel.matches ls = true)
+    (hcs : cut s p = false) (hcc : cut c p = false) :
+    get (selectNode ls (mergeSection false dflt old (.ok (some c) (pre ++ ⟨sel, some s⟩ :: post)))) p
+      = (get s p).or ((get c p).or (get dflt p)) := by
+  rw [field_layering false dflt old (some c) pre post ⟨sel, some s⟩ ls p hpre he (by simp) (by simp [RootObj]) (by simp [RootObj])]
+  simp [lay, setBy, hcs, hcc]
+
+/-- why calculateSystemConfigMerged needs its restore step: the bare MergeCfg of a node system strategy
+    that does not set totalNetworkBandwidth overwrites the cluster value with 0 (the defect repaired in
+    /repo by "fix: keep the cluster totalNetworkBandwidth ..."; known finding C20:layering:system:totalNetworkBandwidth). -/
+theorem bare_mergecfg_loses_bandwidth_counterexample :
+    ¬ (∀ (cl s : Flat) (p : Path), get (overlay cl (emitTnb s)) p = lay true (some s) (get cl) p) := by
+  intro h
+  have := h [([0], -1), ([1], 1000)] [([0], -1), ([26], 5)] [1]
+  revert this
+  decide
+
+/-! ### 2. no leak: an entry that does not select the node has no influence on what the node gets -/
+
+/-- T2 `no_leak`: dropping (or arbitrarily changing, see `no_leak_replace`) an entry whose selector does not
+    match the node leaves the node's delivered strategy unchanged. -/
+theorem no_leak (sys : Bool) (dflt : Flat) (old : SecCfg) (c : Option Flat)
+    (pre post : List NodeEntry) (e : NodeEntry) (ls : Labels) (he : e.sel.matches ls = false) :
+    selectNode ls (mergeSection sys dflt old (.ok c (pre ++ e :: post)))
+      = selectNode ls (mergeSection sys dflt old (.ok c (pre ++ post))) := by
+  rw [select_ok, select_ok]
+  simp [List.find?_append, List.find?_cons, he]
+
+theorem no_leak_replace (sys : Bool) (dflt : Flat) (old : SecCfg) (c : Option Flat)
+    (pre post : List NodeEntry) (sel : Sel) (s s' : Option Flat) (ls : Labels) (he : sel.matches ls = false) :
+    selectNode ls (mergeSection sys dflt old (.ok c (pre ++ ⟨sel, s⟩ :: post)))
+      = selectNode ls (mergeSection sys dflt old (.ok c (pre ++ ⟨sel, s'⟩ :: post))) := by
+  rw [no_leak sys dflt old c pre post ⟨sel, s⟩ ls he, no_leak sys dflt old c pre post ⟨sel, s'⟩ ls he]
+
+/-- entries AFTER the first match have no influence either (overlapping selectors). -/
+theorem no_leak_later (sys : Bool) (dflt : Flat) (old : SecCfg) (c : Option Flat)
+    (pre post post' : List NodeEntry) (e : NodeEntry) (ls : Labels)
+    (hpre : ∀ x ∈ pre, x.sel.matches ls = false) (he : e.sel.matches ls = true) :
+    selectNode ls (mergeSection sys dflt old (.ok c (pre ++ e :: post)))
+      = selectNode ls (mergeSection sys dflt old (.ok c (pre ++ e :: post'))) := by
+  rw [select_ok, select_ok, find_first pre post e ls hpre he, find_first pre post' e ls hpre he]
+
+/-- nil and unparsable selectors never select a node. -/
+theorem nil_or_invalid_selector_never_matches (ls : Labels) :
+    Sel.nothing.matches ls = false ∧ Sel.invalid.matches ls = false := by simp [Sel.matches]
+
+/-! ### 3. absent ⇒ default -/
+
+/-- T3 `absent_is_default`: an absent section delivers exactly the built-in default to every node,
+    whatever was in force before. -/
+theorem absent_is_default (sys : Bool) (dflt : Flat) (old : SecCfg) (ls : Labels) :
+    selectNode ls (mergeSection sys dflt old .absent) = dflt := by
+  simp [selectNode, mergeSection]
+
+theorem deleted_configmap_is_default (d : Defaults) (st : Cfg) (ls : Labels) :
+    nodeSpec (sync d st none) ls = [d.thr, d.qos, d.burst, d.sys, noApps] := by
+  simp [nodeSpec, sync, Cfg.default, secDefault, selectNode]
+
+/-- a parsed section without clusterStrategy and without matching entry is the default as well. -/
+theorem empty_section_is_default (sys : Bool) (dflt : Flat) (old : SecCfg) (ns : List NodeEntry) (ls : Labels)
+    (hns : ∀ x ∈ ns, x.sel.matches ls = false) :
+    selectNode ls (mergeSection sys dflt old (.ok none ns)) = dflt := by
+  rw [select_ok, find_none ns ls hns]
+  rfl
+
+/-! ### 4. malformed ⇒ the previously effective settings stay, over whole update sequences -/
+
+theorem malformed_keeps_previous_step (sys : Bool) (dflt : Flat) (old : SecCfg) :
+    mergeSection sys dflt old .bad = old ∧ mergeHost old .bad = old := by
+  simp [mergeSection, mergeHost]
+
+/-- per event: every unparsable section of a ConfigMap keeps its merged configuration (hence what every
+    node gets), independently of what happens to the other sections. -/
+theorem malformed_keeps_previous_event (d : Defaults) (st : Cfg) (cm : CM) :
+    (cm.thr = .bad → (sync d st (some cm)).thr = st.thr) ∧
+    (cm.qos = .bad → (sync d st (some cm)).qos = st.qos) ∧
+    (cm.burst = .bad → (sync d st (some cm)).burst = st.burst) ∧
+    (cm.sys = .bad → (sync d st (some cm)).sys = st.sys) ∧
+    (cm.host = .bad → (sync d st (some cm)).host = st.host) := by
+  refine ⟨?_, ?_, ?_, ?_, ?_⟩ <;> intro h <;> simp [sync, h, mergeSection, mergeHost]
+
+/-- the result of a parsable or absent section does not depend on the previous state. -/
+theorem good_forgets_previous (sys : Bool) (dflt : Flat) (a b : SecCfg) (i : SecIn) (h : i ≠ .bad) :
+    mergeSection sys dflt a i = mergeSection sys dflt b i := by
+  cases i with
+  | absent => rfl
+  | bad => exact absurd rfl h
+  | ok c ns => rfl
+
+/-- the last input of a section's history that is not unparsable. -/
+def lastGood (ins : List SecIn) : Option SecIn :=
+  ins.foldl (fun acc i => if i = .bad then acc else some i) none
+
+theorem foldl_lastGood (sys : Bool) (dflt : Flat) (init : SecCfg) (ins : List SecIn) :
+    ∀ (acc : Option SecIn) (st : SecCfg),
+      (st = match acc with | none => init | some i => mergeSection sys dflt init i) →
+      (∀ i, acc = some i → i ≠ .bad) →
+      ins.foldl (mergeSection sys dflt) st =
+        match ins.foldl (fun acc i => if i = .bad then acc else some i) acc with
+        | none => init
+        | some i => mergeSection sys dflt init i := by
+  induction ins with
+  | nil => intro acc st h _; simpa using h
+  | cons i ins ih =>
+    intro acc st h hacc
+    simp only [List.foldl_cons]
+    by_cases hb : i = .bad
+    · subst hb
+      simp only [if_true]
+      exact ih acc (mergeSection sys dflt st .bad) (by simpa [mergeSection] using h) hacc
+    · simp only [hb, if_false]
+      apply ih (some i) (mergeSection sys dflt st i)
+      · simpa using good_forgets_previous sys dflt st init i hb
+      · intro j hj; cases hj; exact hb
+
+/-- T4 `malformed_keeps_previous`, over ALL update sequences: after any history of inputs for a section
+    the merged configuration is the one computed from the LAST input that was not unparsable
+    (the initial one if there is none) — unparsable updates never clear or alter anything. -/
+theorem malformed_keeps_previous (sys : Bool) (dflt : Flat) (init : SecCfg) (ins : List SecIn) :
+    ins.foldl (mergeSection sys dflt) init =
+      match lastGood ins with
+      | none => init
+      | some i => mergeSection sys dflt init i :=
+  foldl_lastGood sys dflt init ins none init rfl (by intro i h; cases h)
+
+/-- what a history of ConfigMap events says about one section (a deleted ConfigMap = absent). -/
+def secInputs (f : CM → SecIn) (evs : List (Option CM)) : List SecIn :=
+  evs.map (fun | none => .absent | some cm => f cm)
+
+/-- the sections of the cache evolve independently, each by `mergeSection` on its own inputs; so T4
+    applies to every section of the real event history. -/
+theorem run_sections (d : Defaults) (evs : List (Option CM)) : ∀ (st : Cfg),
+    (run d st evs).thr = (secInputs (·.thr) evs).foldl (mergeSection false d.thr) st.thr ∧
+    (run d st evs).qos = (secInputs (·.qos) evs).foldl (mergeSection false d.qos) st.qos ∧
+    (run d st evs).burst = (secInputs (·.burst) evs).foldl (mergeSection false d.burst) st.burst ∧
+    (run d st evs).sys = (secInputs (·.sys) evs).foldl (mergeSection true d.sys) st.sys := by
+  induction evs with
+  | nil => intro st; simp [run, secInputs]
+  | cons ev evs ih =>
+    intro st
+    have h := ih (sync d st ev)
+    simp only [run, List.foldl_cons, secInputs, List.map_cons] at *
+    cases ev with
+    | none => simpa [sync, Cfg.default, secDefault, mergeSection] using h
+    | some cm => simpa [sync] using h
+
+/-! ### 5. first-match precedence with overlapping selectors -/
+
+/-- T5 `first_match_precedence`: among several entries that select the node, the FIRST in the list decides;
+    invalid / nil selectors before it are skipped. -/
+theorem first_match_precedence (sys : Bool) (dflt : Flat) (old : SecCfg) (c : Option Flat)
+    (pre post : List NodeEntry) (e : NodeEntry) (ls : Labels)
+    (hpre : ∀ x ∈ pre, x.sel.matches ls = false) (he : e.sel.matches ls = true) :
+    selectNode ls (mergeSection sys dflt old (.ok c (pre ++ e :: post)))
+      = mergeNode sys (mergeCluster sys dflt c) e.strat := by
+  rw [select_ok, find_first pre post e ls hpre he]
+
+/-- host applications are not merged at all: the first matching entry's list, else the cluster list. -/
+theorem host_first_match (old : SecCfg) (c : Option Flat) (pre post : List NodeEntry) (e : NodeEntry) (ls : Labels)
+    (hpre : ∀ x ∈ pre, x.sel.matches ls = false) (he : e.sel.matches ls = true) :
+    selectNode ls (mergeHost old (.ok c (pre ++ e :: post))) = e.strat.getD noApps := by
+  simp only [selectNode, mergeHost, List.find?_map]
+  have : ((fun x : Sel × Flat => x.1.matches ls) ∘ fun x : NodeEntry => (x.sel, x.strat.getD noApps))
+      = fun x : NodeEntry => x.sel.matches ls := by funext x; rfl
+  rw [this, find_first pre post e ls hpre he]
+  rfl
+
+/-! ### non-vacuity: concrete configuration with overlapping selectors, all three layers, an array -/
+
+section Examples
+-- keys: 2 enable, 3 cpuSuppressThresholdPercent, 6 memoryEvictThresholdPercent; labels: key 1 (la) values 1 (x) / 2 (y)
+def exDflt : Flat := [([0], -1), ([2], 0), ([3], 65), ([6], 70)]
+def exCluster : Flat := [([0], -1), ([3], 50)]
+def exE1 : NodeEntry := ⟨.reqs [⟨1, 0, [1]⟩], some [([0], -1), ([2], 1)]⟩            -- la=x : enable=true
+def exE2 : NodeEntry := ⟨.reqs [], some [([0], -1), ([2], 1), ([6], 99)]⟩             -- everything
+def exBadSel : NodeEntry := ⟨.invalid, some [([0], -1), ([3], 1)]⟩
+def exCfg : SecCfg := mergeSection false exDflt (secDefault exDflt) (.ok (some exCluster) [exBadSel, exE1, exE2])
+
+-- node la=x: first match is exE1 (exE2 also matches): enable from the entry, 50 from the cluster, 70 from the default
+example : (get (selectNode [(1, 1)] exCfg) [2], get (selectNode [(1, 1)] exCfg) [3], get (selectNode [(1, 1)] exCfg) [6])
+    = (some 1, some 50, some 70) := by decide
+-- node la=y: only exE2 matches; exE1's and the invalid entry's values do not leak
+example : (get (selectNode [(1, 2)] exCfg) [2], get (selectNode [(1, 2)] exCfg) [3], get (selectNode [(1, 2)] exCfg) [6])
+    = (some 1, some 50, some 99) := by decide
+-- hypotheses of `field_layering` are satisfiable with a non-empty `pre` and `post`
+example : (∀ x ∈ [exBadSel], x.sel.matches [(1, 1)] = false) ∧ exE1.sel.matches [(1, 1)] = true
+    ∧ exE2.sel.matches [(1, 1)] = true := by decide
+-- an unparsable update keeps it, an absent one resets to the default
+example : mergeSection false exDflt exCfg .bad = exCfg ∧
+    selectNode [(1, 1)] (mergeSection false exDflt exCfg .absent) = exDflt := by decide
+-- system section: a node entry without bandwidth (or with 0) inherits the cluster's 1000, one with 5 overrides it
+example : get (mergeNode true [([0], -1), ([1], 1000)] (some [([0], -1), ([26], 5)])) [1] = some 1000 ∧
+    get (mergeNode true [([0], -1), ([1], 1000)] (some [([0], -1), ([1], 0)])) [1] = some 1000 ∧
+    get (mergeNode true [([0], -1), ([1], 1000)] (some [([0], -1), ([1], 5)])) [1] = some 5 := by decide
+-- arrays: the node's 1-element list keeps element 1 merged with the cluster's and cuts element 2
+example : get (overlay [([7, 0], 2), ([7, 1, 8], 10), ([7, 2, 8], 20)] [([7, 0], 1), ([7, 1, 9], 5)]) [7, 1, 8] = some 10 ∧
+    get (overlay [([7, 0], 2), ([7, 1, 8], 10), ([7, 2, 8], 20)] [([7, 0], 1), ([7, 1, 9], 5)]) [7, 2, 8] = none ∧
+    cut [([7, 0], 1), ([7, 1, 9], 5)] [7, 2, 8] = true := by decide
+-- lastGood on a history ending with two unparsable updates
+example : lastGood [.absent, .ok none [], .bad, .bad] = some (.ok none []) := by decide
+end Examples
+
 end KoordVerif.C20
